@@ -185,6 +185,60 @@ pub fn update_after_graph_dropped<S: Source>(s: &mut S, late_view: bool) {
     forget((view, w, x));
 }
 
+/// matmul with an additive term of exactly the product's shape, held by a single handle: the
+/// term (the doc calls it "the output matrix") must not be accumulated into
+pub fn matmul_addend<S: Source>(s: &mut S) {
+    let a = mk(s, &[2, 2], Dom::D2);
+    let b = mk(s, &[2, 2], Dom::D2);
+    let c = mk(s, &[2, 2], Dom::D4);
+    let (sa, sb, sc) = (snap(&a), snap(&b), snap(&c));
+    let r = Array::matmul((&a, false), (&b, false), Some(&c));
+    unchanged(&c, &sc);
+    unchanged(&a, &sa);
+    unchanged(&b, &sb);
+    let v = mk(s, &[2], Dom::D4);
+    let w = mk(s, &[2], Dom::D4);
+    let k = mk(s, &[1], Dom::D4);
+    let (sv, sw, sk) = (snap(&v), snap(&w), snap(&k));
+    let d = Array::matmul((&v, false), (&w, false), Some(&k));
+    unchanged(&k, &sk);
+    unchanged(&v, &sv);
+    unchanged(&w, &sw);
+    witness();
+    forget((a, b, c, r, v, w, k, d));
+}
+
+/// an activation closure receives its argument by value; an argument that still shares
+/// storage with live handles (a clone, a view) must leave them as they were
+pub fn activation_alias<S: Source>(s: &mut S) {
+    let u = mk(s, &[2, 2], Dom::Sgn);
+    let su = snap(&u);
+    let view = u.reshape(vec![4]);
+    let r = (corgi::activation::relu())(u.clone());
+    unchanged(&u, &su);
+    unchanged(&view, &su_as(&su, &[4]));
+    for i in 0..4 {
+        let x = su.v[i];
+        chk!(r.values()[i] == if x > 0.0 { x } else { 0.0 }, "[c08:relu-value] relu through the activation closure");
+    }
+    let t = mk(s, &[2], Dom::Sgn).tracked();
+    let st = snap(&t);
+    let keep = t.clone();
+    let q = (corgi::activation::relu())(t.clone());
+    q.backward(None);
+    unchanged(&t, &st);
+    unchanged(&keep, &st);
+    witness();
+    forget((u, view, r, t, keep, q));
+}
+
+fn su_as(s: &Snap, d: &[usize]) -> Snap {
+    Snap {
+        d: d.to_vec(),
+        v: s.v.clone(),
+    }
+}
+
 /// dropping other handles (a clone, a result that recorded the array) changes nothing
 pub fn drop_others<S: Source>(s: &mut S) {
     let a = mk(s, &[2], Dom::D4).tracked();
